@@ -3,7 +3,9 @@
 (* batch of account kinds in every order x failure mode).  Each request is written out together   *)
 (* with what the table SigSpec demands for it (domain request, message container, verification    *)
 (* key per position): the Go driver fills the consensus-spec container named here and verifies    *)
-(* the returned signatures against it - it holds no table of its own.                             *)
+(* the returned signatures against it - it holds no table of its own.  These are the histories of *)
+(* length one (a fresh service per request; the fork epoch of the history is chosen by the check   *)
+(* next to the duty's epoch); Scen_SignerHist generates the histories of overlapping requests.     *)
 EXTENDS Signer, Json
 
 VARIABLE hist
@@ -11,7 +13,9 @@ svars == <<vars, hist>>
 
 SInit == Init /\ hist = <<>>
 
-CallJson(c) == [ev      |-> "Call",
+CallJson(r, c) ==
+               [ev      |-> "Call",
+                rid     |-> r,
                 op      |-> c.op,
                 slot    |-> c.slot,
                 epoch   |-> c.epoch,
@@ -26,8 +30,8 @@ CallJson(c) == [ev      |-> "Call",
 SNext ==
     /\ hist = <<>>
     /\ \E c \in Calls :
-          /\ Call(c)
-          /\ hist' = <<[ev |-> "Reset"], CallJson(c)>>
+          /\ Call(1, c)
+          /\ hist' = <<[ev |-> "Reset"], CallJson(1, c)>>
 
 SSpec == SInit /\ [][SNext]_svars
 
